@@ -17,6 +17,7 @@ mathematical integers (exact in Python); floats are never modelled.
 Unsupported syntax raises Unsupported: the function is then reported UNSUPPORTED, never skipped.
 """
 import ast
+import sys
 import os
 
 import z3
@@ -2302,7 +2303,8 @@ class Engine:
                 body = self.eval(e.elt, e2)
                 facts = list(self.pc[saved + 1:])
             finally:
-                del self.pc[saved:]
+                if not isinstance(sys.exc_info()[1], PyExc):
+                    del self.pc[saved:]          # an exception of the element escapes for SOME index: its path facts stay
                 dem, self.demonic = self.demonic, None
             if dem:
                 # the element calls a nondeterministic library function (e.g. random.choice): one fresh value PER index
@@ -2333,21 +2335,54 @@ class Engine:
                 if table.arr.sort().range() == specs.CSeq:
                     return VDom(table.arr, toz(table.length), it.term)
                 return VSeq(specs.imapsub(it.term, table.arr, toz(table.length)))
-        if isinstance(it, VPairs) and isinstance(g.target, ast.Tuple) and len(g.target.elts) == 2 \
-                and all(isinstance(x, ast.Name) for x in g.target.elts):
-            # [f(u, v) for u, v in pairs]: evaluated once for a generic position
-            t = self.fresh('pos_pair')
+        if isinstance(it, VSeq) and it.sortname == 'ISeq' and isinstance(g.target, ast.Name) and isinstance(e.elt, ast.Tuple) \
+                and len(e.elt.elts) == 2 and not getattr(self, 'in_spec', False) \
+                and ast.unparse(e.elt) != '(1, {})'.format(g.target.id):          # (1, lit): unit terms of a constraint, see below
+            # ((u, v) for v in seq): a sequence of pairs, one per element of seq
+            t = self.fresh('pair_' + g.target.id)
             e2 = dict(env)
-            e2[g.target.elts[0].id] = sel(it.first, t)
-            e2[g.target.elts[1].id] = sel(it.second, t)
-            saved = len(self.pc)
-            self.pc.append(z3.And(t >= 0, t < toz(it.length)))
+            e2[g.target.id] = specs.iget(it.term, t)
             self.generic_elem = getattr(self, 'generic_elem', 0) + 1
             try:
-                body = self.eval(e.elt, e2)
+                a, b = self.eval(e.elt.elts[0], e2), self.eval(e.elt.elts[1], e2)
             finally:
-                del self.pc[saved:]
                 self.generic_elem -= 1
+            if all(isinstance(x, int) or (is_z3(x) and z3.is_int(x)) for x in (a, b)):
+                return VPairs(specs.ilen(it.term), z3.Lambda([t], toz(a)), z3.Lambda([t], toz(b)))
+            raise Unsupported('comprehension of pairs with non-int components')
+        if isinstance(it, VPairs) and ((isinstance(g.target, ast.Tuple) and len(g.target.elts) == 2
+                                       and all(isinstance(x, ast.Name) for x in g.target.elts)) or isinstance(g.target, ast.Name)):
+            # [f(u, v) for u, v in pairs] / [f(t) for t in pairs]: evaluated once for a generic position
+            t = self.fresh('pos_pair')
+            e2 = dict(env)
+            if isinstance(g.target, ast.Name):
+                e2[g.target.id] = VTuple([sel(it.first, t), sel(it.second, t)], 'tuple')
+            else:
+                e2[g.target.elts[0].id] = sel(it.first, t)
+                e2[g.target.elts[1].id] = sel(it.second, t)
+            saved = len(self.pc)
+            self.pc.append(z3.And(t >= 0, t < toz(it.length)))
+            self.demonic = []
+            try:
+                body = self.eval(e.elt, e2)
+                facts = list(self.pc[saved + 1:])
+            finally:
+                if not isinstance(sys.exc_info()[1], PyExc):
+                    del self.pc[saved:]          # an exception of the element escapes for SOME index: its path facts stay
+                dem, self.demonic = self.demonic, None
+            if dem and is_z3(body) and z3.is_int(body):
+                # the element's value is known only through a contract (a fresh result PER position): the result is some list r
+                # with, for every position t, the callee's postconditions and  r[t] == body
+                subs = [(c, z3.Select(self.fresh('dem_arr', z3.ArraySort(z3.IntSort(), c.sort())), t)) for c in dem]
+                r = VSeq(self.fresh('comp', specs.ISeq))
+                tc = z3.Int('t!dc')
+                fs = [z3.substitute(f, *subs) for f in facts] + [specs.iget(r.term, t) == z3.substitute(body, *subs)]
+                self.pc.append(specs.ilen(r.term) == toz(it.length))
+                self.pc.append(z3.ForAll([tc], z3.Implies(z3.And(tc >= 0, tc < toz(it.length)),
+                                                          z3.substitute(z3.And(*fs), (t, tc))), patterns=[specs.iget(r.term, tc)]))
+                return r
+            if dem:
+                raise Unsupported('comprehension over pairs: element known only through a contract and not an int')
             if is_z3(body) and z3.is_int(body):
                 tc = z3.Int('lam!j')
                 return VArr(it.length, z3.Lambda([tc], z3.substitute(body, (t, tc))))
@@ -2362,7 +2397,8 @@ class Engine:
             try:
                 body = self.eval(e.elt, e2)
             finally:
-                del self.pc[saved:]
+                if not isinstance(sys.exc_info()[1], PyExc):
+                    del self.pc[saved:]          # an exception of the element escapes for SOME index: its path facts stay
                 self.generic_elem -= 1
             if isinstance(body, bool):
                 body = z3.IntVal(int(body))
@@ -2384,7 +2420,8 @@ class Engine:
                 body = self.eval(e.elt, e2)        # a ValueError of the element propagates (the path with the raise)
                 facts = list(self.pc[saved + 1:])
             finally:
-                del self.pc[saved:]
+                if not isinstance(sys.exc_info()[1], PyExc):
+                    del self.pc[saved:]          # an exception of the element escapes for SOME index: its path facts stay
                 dem, self.demonic = self.demonic, None
             if not (is_z3(body) and z3.is_int(body)):
                 raise Unsupported('comprehension over tokens: element is not an int')
@@ -2415,7 +2452,8 @@ class Engine:
                 body = self.eval(e.elt, e2)
                 facts = list(self.pc[saved + 1:])
             finally:
-                del self.pc[saved:]
+                if not isinstance(sys.exc_info()[1], PyExc):
+                    del self.pc[saved:]          # an exception of the element escapes for SOME index: its path facts stay
                 dem, self.demonic = self.demonic, None
             if isinstance(body, VFmt) and body.joined is None and not body.split and len(body.args) == 1 and is_z3(body.args[0]):
                 a0 = body.args[0]
@@ -3023,11 +3061,15 @@ class Engine:
                 raise Unsupported('method {}.{} not found'.format(real, meth))
             mrel, mcls, fnode = hit
             # contract may be registered under the dynamic class or the defining class
+            caller = self.frames[-1]['contract'] if self.frames else {}
             for key in ((crel, '{}.{}'.format(o.cls, meth)), (mrel, '{}.{}'.format(mcls, meth))):
                 if key in self.contracts:
                     c = self.contracts[key]
                     if c.get('inline_always'):
                         break
+                    if key in caller.get('inline', []) or key[1] in caller.get('inline', []):
+                        # the caller asks for the body instead of the contract (e.g. a shape of arguments the contract does not model)
+                        return self.call_inline(fnode, {}, [o] + list(args), kw, self.repo.module(mrel), None, node, rel=mrel, qual='{}.{}'.format(mcls, meth))
                     return self.call_contract(key, c, fnode, args, kw, node, o)
             return self.call_function(mrel, '{}.{}'.format(mcls, meth), fnode, args, kw, node, selfobj=o)
         if isinstance(o, VFmt):
@@ -3337,7 +3379,7 @@ def sf_mapcall(eng, node, g, n, m, index):
 
 
 SPEC_FUNCS = {
-    'combs2': lambda eng, node, lo, hi: VCombs2(toz(lo), toz(hi)), 'cvar': _wrap(specs.cvar), 'degsum': _wrap(specs.degsum), 'gadj': _wrap(specs.gadj),
+    'combs2': lambda eng, node, lo, hi: VCombs2(toz(lo), toz(hi)), 'cvar': _wrap(specs.cvar), 'degsum': _wrap(specs.degsum), 'gadj': _wrap(specs.gadj), 'lnbrs': _wrap(specs.lnbrs),
     'mapcall': sf_mapcall, 'mrow': _wrap(specs.mrow), 'mcol': _wrap(specs.mcol),
     'evnest': _wrap(specs.evnest), 'dedges': _wrap(specs.dedges),
     'yxdom': _wrap(specs.yxdom),
